@@ -286,6 +286,29 @@ func checkC11(c *Ctx) {
 	}
 }
 
+// c11Sibling replaces $a by $t.a and $b by $t.b: same placeholder names, same message id, other
+// values. Defined for messages whose placeholders are text, html tags and prints of $a / $b only.
+func c11Sibling(m c11msg) (c11msg, bool) {
+	out := c11msg{meaning: m.meaning, surround: m.surround}
+	changed := false
+	for _, p := range m.parts {
+		switch p.Kind {
+		case "text", "html":
+			out.parts = append(out.parts, p)
+		case "print":
+			if p.E.K == "var" && len(p.E.Acc) == 0 && (p.E.Op == "a" || p.E.Op == "b") && p.Dirs == "" {
+				out.parts = append(out.parts, MPart{Kind: "print", E: vr("t", Acc{Kind: "dot", Key: p.E.Op})})
+				changed = true
+			} else {
+				return out, false
+			}
+		default:
+			return out, false
+		}
+	}
+	return out, changed
+}
+
 const c11Twin = "{msg desc=\"twin\"}tw {$t.a}|{$t.b}|{$t.x}|<b>{$t.x_1}</b>|{$t.n}{/msg}"
 
 func c11File(i int, m c11msg) string {
@@ -311,6 +334,11 @@ func c11File(i int, m c11msg) string {
 		// but other contents, alone and in one template with the first message (before and after it).
 		s += doc + "{template .twin}\n" + c11Twin + use + "\n{/template}\n"
 		s += doc + "{template .both}\n(" + m.msgSrc() + ")#" + c11Twin + "#(" + m.msgSrc() + ")" + use + "\n{/template}\n"
+		// a sibling with the same text and placeholder names (hence the same id) but other contents
+		if sib, ok := c11Sibling(m); ok {
+			s += doc + "{template .sib}\n(" + sib.msgSrc() + ")" + use + "\n{/template}\n"
+			s += doc + "{template .pair}\n(" + m.msgSrc() + ")#(" + sib.msgSrc() + ")#(" + m.msgSrc() + ")" + use + "\n{/template}\n"
+		}
 	}
 	// value templates: what each placeholder renders to on its own
 	for j, p := range allParts(m.parts) {
@@ -578,6 +606,14 @@ func runC11Group(c *Ctx, xg string, group []c11msg, datas []data.Map) {
 						if jsErr == nil && berr == "" {
 							if jb, jerr := jsCallTemplate(vm, fmt.Sprintf("g%d.both", i), toJSON(d), ""); jerr != nil || normEntities(jb) != normEntities(both) {
 								fail("the Go and JavaScript backends agree", "go-vs-js-neighbour:"+sig, cs, "Go: "+both, fmt.Sprint("JS: ", jb, jerr))
+							}
+						}
+						if _, ok := c11Sibling(m); ok {
+							sb, serr2 := render(fmt.Sprintf("g%d.sib", i), d, bundle)
+							pair, perr := render(fmt.Sprintf("g%d.pair", i), d, bundle)
+							c.Count("renders", 2)
+							if serr2 == "" && (perr != "" || pair != got+"#"+sb+"#"+got) {
+								fail("a message renders from its own placeholders whatever other messages the template contains", "same-id-sibling:"+sig, cs, got+"#"+sb+"#"+got, pair+perr)
 							}
 						}
 					}
